@@ -29,7 +29,7 @@ DERIVED = DERIVED1 = ["sigma", "mean", "snr", "_model_log_prob", "_model_log_lik
 DSIZES = DSIZES1 = [1, 6, 1, 1, 1, 1]
 
 
-def build_liesel_model():
+def build_liesel_model(softplus=False):
     b = lsl.param(jnp.array([0.1, -0.2], jnp.float32), lsl.Dist(tfd.Normal, loc=0.0, scale=3.0), name="b")
     sigma = lsl.param(jnp.float32(1.2), lsl.Dist(tfd.InverseGamma, concentration=2.0, scale=1.0), name="sigma")
     m = lsl.param(jnp.float32(0.3), lsl.Dist(tfd.Normal, loc=0.0, scale=1.0), name="m")
@@ -37,7 +37,7 @@ def build_liesel_model():
     mean = lsl.Var(lsl.Calc(lambda X, b, m: X @ b + m, xn, b, m), name="mean")
     snr = lsl.Var(lsl.Calc(lambda b, s: b[0] / s, b, sigma), name="snr")  # feeds no distribution
     y = lsl.obs(jnp.asarray(Y), lsl.Dist(tfd.Normal, loc=mean, scale=sigma), name="y")
-    sigma.transform(tfb.Exp())
+    sigma.transform(tfb.Softplus() if softplus else tfb.Exp())
     return lsl.GraphBuilder().add(y, snr).build_model()
 
 
@@ -78,10 +78,21 @@ def build_liesel_model3():
     return lsl.GraphBuilder().add(y).build_model()
 
 
+# second dict model: a parameter with bounded support - random-walk proposals outside it have a NaN ratio (error code 90)
+PARAMS4, SIZES4 = ["x", "g"], [1, 1]
+
+
+def dict2_logp(s):
+    return -0.5 * jnp.sum(s["x"] ** 2) + jnp.sum(2.0 * jnp.log(s["g"]) - s["g"]) - 0.5 * jnp.sum((s["x"] * s["g"]) ** 2) * 0.1
+
+
 def closed_form(model_kind, after):
     """Derived quantities in float64 from the recorded parameters, without any liesel object."""
     import scipy.stats as st
     f = np.asarray(after, np.float64)
+    if model_kind == "dict2":
+        x, g = f
+        return [-0.5 * x ** 2 + 2.0 * np.log(g) - g - 0.05 * (x * g) ** 2]
     if model_kind == "liesel3":
         z, mu = f
         ll = st.norm(mu + z, 1.0).logpdf(Y3.astype(np.float64)).sum()
@@ -152,6 +163,8 @@ def make_kernels(spec, interface, user_model=None):
             k = finite_discrete_gibbs_kernel(keys[0], user_model, outcomes=[0, 1])
         elif kind == "rw":
             k = gs.RWKernel(keys, initial_step_size=0.3)
+        elif kind == "rwbig":       # large steps: many proposals leave the support
+            k = gs.RWKernel(keys, initial_step_size=1.5)
         elif kind == "iwls":
             k = gs.IWLSKernel(keys, initial_step_size=0.7)
         elif kind == "gibbs":
@@ -183,20 +196,26 @@ SEQS = {
     "rw_mh_rw": [("rw", ["m"]), ("mh", ["b"]), ("rw", ["sigma_transformed"])],
     "gibbs_nuts": [("gibbs", ["m"]), ("nuts", ["sigma_transformed", "b"])],
     "hmc_rw": [("hmc", ["b"]), ("rw", ["m"]), ("iwls", ["sigma_transformed"])],
+    "rw_sigma_first": [("rw", ["sigma_transformed"]), ("rw", ["m"]), ("mh", ["b"])],
     # for the second Liesel model
     "rw_hi_u_ab": [("rw", ["hi_transformed"]), ("rw", ["u_transformed"]), ("iwls", ["a", "bb"])],
     "nuts_u_rw": [("rw", ["a"]), ("nuts", ["hi_transformed", "bb"]), ("rw", ["u_transformed"])],
     # for the third Liesel model
     "fdgibbs_rw": [("fdgibbs", ["z"]), ("rw", ["mu"])],
+    # for the second dict model
+    "rw_x_rw_g": [("rw", ["x"]), ("rwbig", ["g"])],
 }
 IDENTS = ["zz_first", "mm_second", "aa_third"]     # sorted order differs from configured order
 
 
 def run(seq="iwls_rw_gibbs", model_kind="liesel", chains=2, seed=0, custom_idents=True,
-        schedule=((1, 4), (3, 2), (4, 4))):
+        schedule=((1, 4), (3, 2), (4, 4)), double_set_model=False):
+    """double_set_model (Liesel model 1): the first kernel is added, then the builder is given the interface of a model
+    with the same node names but another graph (sigma = softplus(...)), then the real interface."""
     spec = SEQS[seq]
     PARAMS, SIZES, DERIVED, DSIZES = ((PARAMS2, SIZES2, DERIVED2, DSIZES2) if model_kind == "liesel2"
                                       else (PARAMS3, SIZES3, DERIVED3, DSIZES3) if model_kind == "liesel3"
+                                      else (PARAMS4, SIZES4, [], []) if model_kind == "dict2"
                                       else (PARAMS1, SIZES1, DERIVED1, DSIZES1))
     builders = {"liesel": build_liesel_model, "liesel2": build_liesel_model2, "liesel3": build_liesel_model3}
     npar, nder = sum(SIZES), (sum(DSIZES) if model_kind.startswith("liesel") else 1)
@@ -209,9 +228,10 @@ def run(seq="iwls_rw_gibbs", model_kind="liesel", chains=2, seed=0, custom_ident
             return (liesel_flat(interface._model, before, PARAMS) + liesel_flat(interface._model, after, PARAMS)
                     + liesel_flat(interface._model, after, DERIVED))
     else:
-        interface = gs.DictInterface(dict_logp)
-        init = {"b": jnp.array([0.1, -0.2], jnp.float32), "sigma_transformed": jnp.float32(np.log(1.2)),
-                "m": jnp.float32(0.3)}
+        interface = gs.DictInterface(dict2_logp if model_kind == "dict2" else dict_logp)
+        init = ({"x": jnp.array([0.3], jnp.float32), "g": jnp.array([0.6], jnp.float32)} if model_kind == "dict2" else
+                {"b": jnp.array([0.1, -0.2], jnp.float32), "sigma_transformed": jnp.float32(np.log(1.2)),
+                 "m": jnp.float32(0.3)})
 
         def obs_fn(model, before, after, info, epoch, key):
             f = lambda s: [x for n in PARAMS for x in jnp.ravel(jnp.asarray(s[n], jnp.float32))]  # noqa: E731
@@ -225,12 +245,18 @@ def run(seq="iwls_rw_gibbs", model_kind="liesel", chains=2, seed=0, custom_ident
     wraps = [WrapKernel(k, n_tun=0, obs_fn=obs_fn, n_obs=2 * npar + nder, cap=total + 4 * len(schedule) + 8,
                         tun_fn=lambda ks: []) for k in inner]
     b = gs.EngineBuilder(seed=seed, num_chains=chains)
+    if double_set_model:
+        if custom_idents:
+            wraps[0].identifier = IDENTS[0]
+        b.add_kernel(wraps[0])
+        b.set_model(gs.LieselInterface(build_liesel_model(softplus=True)))
     b.set_model(interface)
     b.set_initial_values(init)
     for i, w in enumerate(wraps):
         if custom_idents:
             w.identifier = IDENTS[i]
-        b.add_kernel(w)
+        if not (double_set_model and i == 0):
+            b.add_kernel(w)
     b.set_epochs([EpochConfig(EpochType.INITIAL_VALUES, 1, 1, None)]
                  + [EpochConfig(EpochType(t), d, 1, None) for t, d in schedule])
     b.show_progress = False
@@ -271,15 +297,18 @@ def run(seq="iwls_rw_gibbs", model_kind="liesel", chains=2, seed=0, custom_ident
         hdr = {"N": npar, "own": [sorted(sum((offs[n] for n in keys), [])) for _, keys in spec],
                "order": list(range(1, len(spec) + 1)), "seq": seq, "model": model_kind, "chain": c,
                "kinds": [k for k, _ in spec], "custom_idents": custom_idents,
-               "mh_like": [k in ("rw", "mh", "iwls") for k, _ in spec],
+               "mh_like": [k in ("rw", "rwbig", "mh", "iwls") for k, _ in spec],
                "scenario": {"seq": seq, "model_kind": model_kind, "chains": chains, "seed": seed,
-                            "custom_idents": custom_idents, "schedule": [list(s) for s in schedule]}}
+                            "custom_idents": custom_idents, "schedule": [list(s) for s in schedule],
+                            "double_set_model": double_set_model}}
         traces.append({"hdr": hdr, "ev": ev})
     return traces
 
 
 def recompute(model_kind, model, after):
     """Derived quantities from scratch on the user's own model (no goose interface)."""
+    if model_kind == "dict2":
+        return [fstr(np.float32(dict2_logp({"x": jnp.asarray([np.float32(after[0])]), "g": jnp.asarray([np.float32(after[1])])})))]
     if model_kind in ("liesel2", "liesel3"):
         P_, D_ = (PARAMS2, DERIVED2) if model_kind == "liesel2" else (PARAMS3, DERIVED3)
         model.auto_update = False
